@@ -106,6 +106,11 @@ def gen_table_case(r, kind, copy_faults=False):
         elif t < 55:
             pos = r.below(n); row = new_row(r.chance(1, 4) and bool(sh.uniq))
             if r.chance(1, 4): row = list(sh.rows[pos]); row[r.range(1, 3)] = r.below(4)     # same unique key, other columns
+            if len(sh.uniq) >= 2 and n >= 2 and r.chance(1, 3):
+                # aimed: keep the row's key on one unique index, collide with another row on a different one
+                q = r.below(n); u1 = r.choice(sh.uniq)
+                row = list(sh.rows[pos])
+                for cc in u1: row[cc] = sh.rows[q][cc]
             ops.append('U %d %d %d %d %d %d' % (f(), pos, *row))
             if not sh.conflict(row, pos): sh.rows[pos] = row
         elif t < 70:
